@@ -155,6 +155,9 @@ let check (b : block) : verdict list =
    | Some w, _ ->
      let nq = List.length w in
      bump_by "queries" nq;
+     bump (if nq = 0 then "files_lines_0" else if nq <= 10 then "files_lines_1_10"
+           else if nq <= 100 then "files_lines_11_100" else if nq <= 1000 then "files_lines_101_1000"
+           else "files_lines_1001_5000");
      let w_int = List.map (fun (i, q) -> (Conv.int_of_nat i, Conv.ints_of_zlist q)) w in
      let w_arr = Array.of_list w_int in
      (* --- parser correspondence *)
@@ -259,6 +262,9 @@ let check (b : block) : verdict list =
               | tag :: j :: dseed :: maxus :: spin :: status :: rest ->
                 bump "runs";
                 let j = int_of_string j in
+                bump (Printf.sprintf "runs_j%02d" j);
+                if int_of_string maxus > 0 then bump "runs_with_delay";
+                if int_of_string spin > 0 then bump "runs_with_spinners";
                 let where = Printf.sprintf "run %s j=%d delay_seed=%s max_us=%s spinners=%s" tag j dseed maxus spin in
                 (match status, rest with
                  | "hang", _ -> add (Viol ("multiq:hang", where ^ ": did not return"))
